@@ -460,20 +460,21 @@ Section Reader.
   Variable St : Type.
   Variable rl : Z -> St -> bytes * St.
   Variable rem : St -> bytes.
+  Variable L : Z -> Prop.
   Variable P : St -> Prop.
-  Hypothesis G : good_reader St rl rem P.
+  Hypothesis G : good_reader St rl rem L P.
 
   Lemma read_line_crlf lim s x rest :
-    P s -> rem s = x ++ [13; 10] ++ rest -> ~ In 10 x ->
+    L lim -> P s -> rem s = x ++ [13; 10] ++ rest -> ~ In 10 x ->
     (lim < 0 \/ len x + 2 <= lim) ->
     fst (rl lim s) = x ++ [13; 10] /\ rem (snd (rl lim s)) = rest.
   Proof.
-    intros Hs Hrem Hx Hlim.
-    pose proof (gr_concat _ _ _ _ G lim s Hs) as Hcat.
-    pose proof (gr_line _ _ _ _ G lim s Hs) as Hin.
-    pose proof (gr_full _ _ _ _ G lim s Hs) as Hfull.
+    intros HL Hs Hrem Hx Hlim.
+    pose proof (gr_concat _ _ _ _ _ G lim s HL Hs) as Hcat.
+    pose proof (gr_line _ _ _ _ _ G lim s HL Hs) as Hin.
+    pose proof (gr_full _ _ _ _ _ G lim s HL Hs) as Hfull.
     assert (Hne : fst (rl lim s) <> []).
-    { apply (gr_progress _ _ _ _ G); auto.
+    { apply (gr_progress _ _ _ _ _ G); auto.
       - pose proof (len_nonneg x). lia.
       - rewrite Hrem. destruct x; discriminate. }
     set (l := fst (rl lim s)) in *. set (s' := snd (rl lim s)) in *.
@@ -501,15 +502,15 @@ Section Reader.
   Qed.
 
   Lemma read_line_eof lim s x :
-    P s -> rem s = x -> x <> [] -> ~ In 10 x ->
+    L lim -> P s -> rem s = x -> x <> [] -> ~ In 10 x ->
     (lim < 0 \/ len x + 1 <= lim) ->
     fst (rl lim s) = x /\ rem (snd (rl lim s)) = [].
   Proof.
-    intros Hs Hrem Hxne Hx Hlim.
-    pose proof (gr_concat _ _ _ _ G lim s Hs) as Hcat.
-    pose proof (gr_full _ _ _ _ G lim s Hs) as Hfull.
+    intros HL Hs Hrem Hxne Hx Hlim.
+    pose proof (gr_concat _ _ _ _ _ G lim s HL Hs) as Hcat.
+    pose proof (gr_full _ _ _ _ _ G lim s HL Hs) as Hfull.
     assert (Hne : fst (rl lim s) <> []).
-    { apply (gr_progress _ _ _ _ G); auto.
+    { apply (gr_progress _ _ _ _ _ G); auto.
       - pose proof (len_nonneg x). lia.
       - rewrite Hrem. exact Hxne. }
     set (l := fst (rl lim s)) in *. set (s' := snd (rl lim s)) in *.
@@ -555,9 +556,11 @@ Section Exact.
   Variable St : Type.
   Variable rl : Z -> St -> bytes * St.
   Variable rem : St -> bytes.
+  Variable L : Z -> Prop.
   Variable P : St -> Prop.
-  Hypothesis G : good_reader St rl rem P.
+  Hypothesis G : good_reader St rl rem L P.
   Variable maxline : Z.
+  Hypothesis HL : L maxline.
   Variables (b : bytes) (last : bool) (pad c eol rest : bytes).
   Variable limit : option Z.
   Hypothesis Hb : boundary_ok b = true.
@@ -595,11 +598,12 @@ Section Exact.
     pose proof maxline_pos as Hmp.
     induction fuel as [|fuel IH]; intros pieces d lfend nread s Hs Hph Hn Hf.
     { pose proof (len_nonneg (rem s)). lia. }
-    pose proof (gr_concat _ _ _ _ G maxline s Hs) as Hcat.
-    pose proof (gr_line _ _ _ _ G maxline s Hs) as Hin.
-    pose proof (gr_inv _ _ _ _ G maxline s Hs) as Hs1.
-    pose proof (gr_progress _ _ _ _ G maxline s Hs ltac:(lia)) as Hprog.
-    pose proof (gr_lone_lf _ _ _ _ G maxline maxline s Hs ltac:(lia)) as Hlone.
+    pose proof (gr_concat _ _ _ _ _ G maxline s HL Hs) as Hcat.
+    pose proof (gr_line _ _ _ _ _ G maxline s HL Hs) as Hin.
+    pose proof (gr_inv _ _ _ _ _ G maxline s HL Hs) as Hs1.
+    pose proof (gr_progress _ _ _ _ _ G maxline s HL Hs ltac:(lia)) as Hprog.
+    pose proof (gr_lone_lf _ _ _ _ _ G maxline maxline s HL HL Hs ltac:(lia))
+      as Hlone.
     cbn [rlob].
     destruct Hph as [c2 Hrem Hc Hlf | Hd Hw Hrem Hnext | Hd Hw Hlf Hrem].
     - (* content *)
@@ -656,13 +660,13 @@ Section Exact.
       assert (Hread : fst (rl maxline s) = bline b last pad ++ eol /\
                       rem (snd (rl maxline s)) = rest).
       { destruct Heol as [He | [He Hr]].
-        - rewrite He. apply (read_line_crlf St rl rem P G); auto.
+        - rewrite He. apply (read_line_crlf St rl rem L P G); auto.
           rewrite Hrem. unfold tailz. rewrite He. reflexivity.
         - assert (Hx : bline b last pad <> []).
           { pose proof (bline_len b last pad) as H2. intros E.
             rewrite E in H2. cbn in H2. lia. }
           rewrite He, Hr, app_nil_r.
-          apply (read_line_eof St rl rem P G); auto.
+          apply (read_line_eof St rl rem L P G); auto.
           + rewrite Hrem. unfold tailz. rewrite He, Hr, !app_nil_r.
             reflexivity.
           + right. lia. }
@@ -679,3 +683,303 @@ Section Exact.
       f_equal. rewrite Hn, Hw, !len_app. change (len [13; 10]) with 2.
       unfold nfin. lia.
   Qed.
+
+  Lemma rlob_exact_sec s fuel :
+    P s -> rem s = c ++ [13; 10] ++ tailz -> len (rem s) < Z.of_nat fuel ->
+    exists pieces s',
+      rlob St rl maxline fuel (dashb b) (dashb b ++ [45; 45]) limit
+           [] [] true 0 s
+        = RDone pieces (if last then 1 else 0) nfin s' /\
+      List.concat pieces = c /\ rem s' = rest /\ P s'.
+  Proof.
+    intros Hs Hrem Hf. apply rlob_inv; auto.
+    apply (PhA _ _ _ _ c); auto.
+  Qed.
+End Exact.
+
+(* read_lines_to_outerboundary, started at the first byte of a part's
+   content [c] that is followed by CRLF, a delimiter line and [rest], returns
+   exactly [c] (whatever bytes it consists of), reports whether the
+   delimiter was the closing one, has read exactly up to the end of the
+   delimiter line and leaves the reader at [rest] -- for every line source
+   that satisfies [good_reader]. *)
+Theorem lines_to_boundary_exact :
+  forall (St : Type) (rl : Z -> St -> bytes * St) (rem : St -> bytes)
+         (L : Z -> Prop) (P : St -> Prop),
+    good_reader St rl rem L P ->
+  forall (maxline : Z) (b : bytes) (last : bool) (pad c eol rest : bytes)
+         (limit : option Z) (s : St) (fuel : nat),
+    L maxline ->
+    boundary_ok b = true ->
+    forallb is_blank_c pad = true ->
+    (eol = [13; 10] \/ (eol = [] /\ rest = [])) ->
+    len (bline b last pad) + 2 <= maxline ->
+    ~ occurs (10 :: dashb b) (10 :: c) ->
+    limit_ok limit (len c) ->
+    P s ->
+    rem s = c ++ [13; 10] ++ bline b last pad ++ eol ++ rest ->
+    len (rem s) < Z.of_nat fuel ->
+    exists pieces s',
+      rlob St rl maxline fuel (dashb b) (dashb b ++ [45; 45]) limit
+           [] [] true 0 s
+        = RDone pieces (if last then 1 else 0)
+                (len c + 2 + len (bline b last pad) + len eol) s' /\
+      List.concat pieces = c /\ rem s' = rest /\ P s'.
+Proof.
+  intros St rl rem L P G maxline b last pad c eol rest limit s fuel
+         HL Hb Hpad Heol Hmax Hocc Hlim Hs Hrem Hf.
+  exact (rlob_exact_sec St rl rem L P G maxline HL b last pad c eol rest limit
+           Hb Hpad Heol Hmax Hocc Hlim s fuel Hs Hrem Hf).
+Qed.
+
+(* ------------------------------------------------------------------ *)
+(* the two readers satisfy the contract *)
+
+Definition idb (s : bytes) : bytes := s.
+Definition any_lim (k : Z) : Prop := True.
+Definition any_state (s : bytes) : Prop := True.
+
+Lemma lf_line_cons k x r :
+  lf_line k (x :: r) =
+  if k =? 0 then ([], x :: r)
+  else if x =? 10 then ([x], r)
+  else (x :: fst (lf_line (k - 1) r), snd (lf_line (k - 1) r)).
+Proof.
+  cbn [lf_line]. destruct (k =? 0); [reflexivity|].
+  destruct (x =? 10); [reflexivity|].
+  destruct (lf_line (k - 1) r). reflexivity.
+Qed.
+
+Lemma lf_concat : forall s k, fst (lf_line k s) ++ snd (lf_line k s) = s.
+Proof.
+  induction s as [|x r IH]; intros k; [reflexivity|].
+  rewrite lf_line_cons. destruct (k =? 0); [reflexivity|].
+  destruct (x =? 10); [reflexivity|]. cbn [fst snd app]. rewrite IH.
+  reflexivity.
+Qed.
+
+Lemma lf_progress : forall s k, k <> 0 -> s <> [] -> fst (lf_line k s) <> [].
+Proof.
+  intros [|x r] k Hk Hs; [congruence|]. rewrite lf_line_cons.
+  replace (k =? 0) with false by (symmetry; apply Z.eqb_neq; exact Hk).
+  destruct (x =? 10); discriminate.
+Qed.
+
+(* a piece has no LF except possibly as its last byte *)
+Lemma lf_shape : forall s k,
+  ~ In 10 (fst (lf_line k s)) \/
+  exists x, fst (lf_line k s) = x ++ [10] /\ ~ In 10 x.
+Proof.
+  induction s as [|x r IH]; intros k.
+  - left. intros [].
+  - rewrite lf_line_cons. destruct (k =? 0); [left; intros []|].
+    destruct (x =? 10) eqn:E.
+    + apply Z.eqb_eq in E. subst x. right. exists []. split; [reflexivity|].
+      intros [].
+    + apply Z.eqb_neq in E. cbn [fst]. destruct (IH (k - 1)) as [H | [y [H1 H2]]].
+      * left. intros [Hi|Hi]; [congruence | exact (H Hi)].
+      * right. exists (x :: y). rewrite H1. split; [reflexivity|].
+        intros [Hi|Hi]; [congruence | exact (H2 Hi)].
+Qed.
+
+Lemma lf_no_inner_crlf s k : no_inner_crlf (fst (lf_line k s)).
+Proof.
+  intros x y H. destruct (lf_shape s k) as [Hn | [z [Hz Hn]]].
+  - exfalso. apply Hn. rewrite H. apply in_or_app. right. right. left.
+    reflexivity.
+  - rewrite Hz in H.
+    destruct y as [|e y]; [reflexivity|]. exfalso.
+    destruct (@exists_last _ (e :: y)) as (y' & e' & Hy); [discriminate|].
+    rewrite Hy in H.
+    replace (x ++ [13; 10] ++ y' ++ [e']) with ((x ++ [13; 10] ++ y') ++ [e'])
+      in H by (lnorm; reflexivity).
+    apply app_inj_tail in H as [H _]. apply Hn. rewrite H.
+    apply in_or_app. right. right. left. reflexivity.
+Qed.
+
+Lemma ends_lf_cons x l : ends_lf l -> ends_lf (x :: l).
+Proof. intros [z ->]. exists (x :: z). reflexivity. Qed.
+
+Lemma lf_full : forall s k, ~ ends_lf (fst (lf_line k s)) ->
+  0 <= k <= len (fst (lf_line k s)) \/ snd (lf_line k s) = [].
+Proof.
+  induction s as [|x r IH]; intros k; [right; reflexivity|].
+  rewrite lf_line_cons. destruct (k =? 0) eqn:E0.
+  - apply Z.eqb_eq in E0. subst k. intros _. left. unfold len. cbn [fst List.length]. lia.
+  - apply Z.eqb_neq in E0. destruct (x =? 10) eqn:E.
+    + apply Z.eqb_eq in E. subst x. intros H. exfalso. apply H. exists [].
+      reflexivity.
+    + cbn [fst snd]. intros H.
+      destruct (IH (k - 1)) as [Hk | Hk].
+      * intros He. apply H. apply ends_lf_cons. exact He.
+      * left. rewrite len_cons. lia.
+      * right. exact Hk.
+Qed.
+
+Theorem lf_reader_good : good_reader bytes lf_line idb any_lim any_state.
+Proof.
+  split; unfold idb.
+  - intros; exact I.
+  - intros lim s _ _. apply lf_concat.
+  - intros lim s _ _ Hk Hs. apply lf_progress; assumption.
+  - intros lim s _ _. apply lf_no_inner_crlf.
+  - intros lim s _ _. apply lf_full.
+  - intros lim lim' s _ _ _ Hk _ [t Ht]. rewrite Ht, lf_line_cons.
+    replace (lim' =? 0) with false by (symmetry; apply Z.eqb_neq; exact Hk).
+    reflexivity.
+Qed.
+
+(* ---- the CRLF-splitting reader *)
+Lemma crlf_line_cons k x r :
+  crlf_line k (x :: r) =
+  if k =? 0 then ([], x :: r)
+  else match r with
+       | y :: r' =>
+           if (x =? 13) && (y =? 10) && negb (k =? 1) then ([x; y], r')
+           else (x :: fst (crlf_line (k - 1) r), snd (crlf_line (k - 1) r))
+       | [] => ([x], [])
+       end.
+Proof.
+  cbn [crlf_line]. destruct (k =? 0); [reflexivity|].
+  destruct r as [|y r']; [reflexivity|].
+  destruct ((x =? 13) && (y =? 10) && negb (k =? 1)); [reflexivity|].
+  destruct (crlf_line (k - 1) (y :: r')). reflexivity.
+Qed.
+
+Lemma crlf_concat : forall s k, fst (crlf_line k s) ++ snd (crlf_line k s) = s.
+Proof.
+  induction s as [|x r IH]; intros k; [reflexivity|].
+  rewrite crlf_line_cons. destruct (k =? 0); [reflexivity|].
+  destruct r as [|y r']; [reflexivity|].
+  destruct ((x =? 13) && (y =? 10) && negb (k =? 1)) eqn:E.
+  - reflexivity.
+  - cbn [fst snd app]. rewrite IH. reflexivity.
+Qed.
+
+Lemma crlf_progress : forall s k, k <> 0 -> s <> [] -> fst (crlf_line k s) <> [].
+Proof.
+  intros [|x r] k Hk Hs; [congruence|]. rewrite crlf_line_cons.
+  replace (k =? 0) with false by (symmetry; apply Z.eqb_neq; exact Hk).
+  destruct r as [|y r']; [discriminate|].
+  destruct ((x =? 13) && (y =? 10) && negb (k =? 1)); discriminate.
+Qed.
+
+Lemma crlf_head k y r :
+  fst (crlf_line k (y :: r)) = [] \/ exists t, fst (crlf_line k (y :: r)) = y :: t.
+Proof.
+  rewrite crlf_line_cons. destruct (k =? 0); [left; reflexivity|].
+  destruct r as [|y' r']; [right; exists []; reflexivity|].
+  destruct ((y =? 13) && (y' =? 10) && negb (k =? 1)); right; eexists;
+    reflexivity.
+Qed.
+
+Lemma crlf_no_inner_crlf : forall s k, no_inner_crlf (fst (crlf_line k s)).
+Proof.
+  induction s as [|x r IH]; intros k x0 y0 H.
+  - destruct x0; discriminate.
+  - rewrite crlf_line_cons in H. destruct (k =? 0) eqn:E0.
+    { destruct x0; discriminate. }
+    apply Z.eqb_neq in E0.
+    destruct r as [|y r'].
+    { destruct x0 as [|? [|? ?]]; discriminate. }
+    destruct ((x =? 13) && (y =? 10) && negb (k =? 1)) eqn:E.
+    + cbn [fst] in H. destruct x0 as [|a [|a' x0]].
+      * cbn [app] in H. injection H as _ _ H. symmetry. exact H.
+      * cbn [app] in H. injection H as _ _ H. discriminate.
+      * cbn [app] in H. injection H as _ _ H. destruct x0; discriminate.
+    + remember (crlf_line (k - 1) (y :: r')) as rec eqn:Erec.
+      cbn [fst] in H. destruct x0 as [|a x0].
+      * cbn [app] in H. injection H as Hx H.
+        exfalso. subst x. subst rec.
+        destruct (crlf_head (k - 1) y r') as [Hh | [t Hh]]; rewrite Hh in H;
+          [discriminate|].
+        injection H as Hy _. subst y.
+        assert (Hk1 : k <> 1).
+        { intros ->. change (1 - 1) with 0 in Hh. cbn in Hh. discriminate. }
+        replace (k =? 1) with false in E by (symmetry; apply Z.eqb_neq; exact Hk1).
+        discriminate.
+      * cbn [app] in H. injection H as _ H. subst rec.
+        apply (IH (k - 1) x0 y0). exact H.
+Qed.
+
+Lemma crlf_full : forall s k, ~ ends_lf (fst (crlf_line k s)) ->
+  0 <= k <= len (fst (crlf_line k s)) \/ snd (crlf_line k s) = [].
+Proof.
+  induction s as [|x r IH]; intros k; [right; reflexivity|].
+  rewrite crlf_line_cons. destruct (k =? 0) eqn:E0.
+  - apply Z.eqb_eq in E0. subst k. intros _. left. unfold len.
+    cbn [fst List.length]. lia.
+  - apply Z.eqb_neq in E0. destruct r as [|y r']; [right; reflexivity|].
+    destruct ((x =? 13) && (y =? 10) && negb (k =? 1)) eqn:E.
+    + intros H. exfalso. apply H. cbn [fst].
+      apply andb_true_iff in E as [E _]. apply andb_true_iff in E as [_ E].
+      apply Z.eqb_eq in E. subst y. exists [x]. reflexivity.
+    + cbn [fst snd]. intros H. destruct (IH (k - 1)) as [Hk | Hk].
+      * intros He. apply H. apply ends_lf_cons. exact He.
+      * left. rewrite len_cons. lia.
+      * right. exact Hk.
+Qed.
+
+(* the reader separates a CR from the LF behind it *)
+Definition divided (k : Z) (t : bytes) : Prop :=
+  (exists z, fst (crlf_line k t) = z ++ [13]) /\
+  (exists u, snd (crlf_line k t) = 10 :: u).
+
+(* that happens only at a size cut *)
+Lemma divided_cut : forall s k, divided k s -> len (fst (crlf_line k s)) = k.
+Proof.
+  induction s as [|x r IH]; intros k [[z Hz] [u Hu]].
+  - destruct z; discriminate.
+  - rewrite crlf_line_cons in *. destruct (k =? 0) eqn:E0.
+    { destruct z; discriminate. }
+    apply Z.eqb_neq in E0. destruct r as [|y r']; [discriminate|].
+    destruct ((x =? 13) && (y =? 10) && negb (k =? 1)) eqn:E.
+    + apply andb_true_iff in E as [E _]. apply andb_true_iff in E as [_ E].
+      apply Z.eqb_eq in E. subst y. cbn [fst] in Hz.
+      destruct z as [|a [|a' z]]; cbn [app] in Hz; try discriminate.
+      destruct z; discriminate.
+    + cbn [fst snd] in *. rewrite len_cons.
+      destruct (fst (crlf_line (k - 1) (y :: r'))) as [|e l'] eqn:El.
+      * assert (k - 1 = 0).
+        { destruct (Z.eq_dec (k - 1) 0) as [H0|H0]; [exact H0|].
+          exfalso. apply (crlf_progress (y :: r') (k - 1) H0); [discriminate|].
+          exact El. }
+        rewrite len_nil. lia.
+      * destruct z as [|a z]; [discriminate|]. cbn [app] in Hz.
+        injection Hz as _ Hz.
+        rewrite <- El in Hz. rewrite <- El.
+        rewrite (IH (k - 1)); [lia|]. split; [exists z; exact Hz | exists u; exact Hu].
+Qed.
+
+Definition suffix (t s : bytes) : Prop := exists p, s = p ++ t.
+Definition crlf_lims (maxline : Z) (k : Z) : Prop := k = -1 \/ k = maxline.
+(* the CRLF reader never separates a CR from its LF on the rest of s *)
+Definition crlf_safe (maxline : Z) (s : bytes) : Prop :=
+  forall t, suffix t s -> ~ divided maxline t.
+
+Lemma crlf_safe_short maxline s : len s <= maxline -> crlf_safe maxline s.
+Proof.
+  intros H t [p ->] Hd. pose proof (divided_cut t maxline Hd) as Hc.
+  destruct Hd as [_ [u Hu]].
+  pose proof (crlf_concat t maxline) as Hcat. rewrite Hu in Hcat.
+  rewrite len_app in H. rewrite <- Hcat, len_app, len_cons in H.
+  pose proof (len_nonneg p). pose proof (len_nonneg u). lia.
+Qed.
+
+Theorem crlf_reader_good maxline :
+  good_reader bytes crlf_line idb (crlf_lims maxline) (crlf_safe maxline).
+Proof.
+  split; unfold idb.
+  - intros lim s _ Hs t [p Hp]. apply Hs.
+    exists (fst (crlf_line lim s) ++ p).
+    rewrite <- (crlf_concat s lim) at 1. rewrite Hp. lnorm. reflexivity.
+  - intros lim s _ _. apply crlf_concat.
+  - intros lim s _ _ Hk Hs. apply crlf_progress; assumption.
+  - intros lim s _ _. apply crlf_no_inner_crlf.
+  - intros lim s _ _. apply crlf_full.
+  - intros lim lim' s Hl _ Hs _ Hz Hu. exfalso.
+    destruct Hl as [-> | ->].
+    + pose proof (divided_cut s (-1) (conj Hz Hu)) as Hc.
+      pose proof (len_nonneg (fst (crlf_line (-1) s))). lia.
+    + apply (Hs s); [exists []; reflexivity | split; assumption].
+Qed.
